@@ -217,3 +217,108 @@ def describe_path(fn, path):
         else:
             out.append('%s@%s' % (fn.expr(p)[:60], fn.nodes[p].get('l')))
     return ' -> '.join(out)
+
+
+def in_cfg_loop(fn, nid):
+    """The element lies on a CFG cycle (works on normal forms whose inlined nodes have no source offsets)."""
+    pos = fn.positions()
+    if nid not in pos:
+        return False
+    b0 = pos[nid][0]
+    seen = set()
+    dq = deque(fn.succs(b0))
+    while dq:
+        b = dq.popleft()
+        if b == b0:
+            return True
+        if b in seen:
+            continue
+        seen.add(b)
+        dq.extend(fn.succs(b))
+    return False
+
+
+def exit_reachable_assuming(fn, call_value, max_states=20000):
+    """Path-sensitive reachability of the function exit over (block, values of bool locals), assuming that every call whose
+    resolved callee qname is a key of `call_value` returns that bool.  Bool locals assigned only from constants / evaluable
+    conditions are tracked; anything else is unknown (both edges followed).  Returns True if a normal exit is reachable."""
+    def ev(nid, env):
+        n = fn.sn(nid)
+        if n is None:
+            return None
+        k = n.get('k')
+        if 'cv' in n and not n.get('float') and k in ('lit',):
+            return n['cv'] != '0'
+        if k == 'var' and n.get('d') in env:
+            return env[n['d']]
+        if k == 'unop' and n['op'] == '!':
+            v = ev(n['sub'], env)
+            return None if v is None else (not v)
+        if k == 'binop' and n['op'] in ('&&', '||'):
+            a, b = ev(n['lhs'], env), ev(n['rhs'], env)
+            if n['op'] == '&&':
+                if a is False or b is False:
+                    return False
+                return True if (a is True and b is True) else None
+            if a is True or b is True:
+                return True
+            return False if (a is False and b is False) else None
+        if k == 'binop' and n['op'] in ('==', '!='):
+            a, b = ev(n['lhs'], env), ev(n['rhs'], env)
+            if a is None or b is None:
+                return None
+            return (a == b) if n['op'] == '==' else (a != b)
+        if k in ('call', 'construct') and n.get('q') in call_value:
+            return call_value[n['q']]
+        if 'cv' in n and not n.get('float'):
+            return n['cv'] != '0'
+        return None
+
+    def is_bool_local(n):
+        return n.get('k') == 'var' and n.get('vk') == 'local' and n.get('t') == 'bool'
+
+    start = (fn.entry, ())
+    seen = {start}
+    dq = deque([start])
+    n_states = 0
+    while dq:
+        b, envt = dq.popleft()
+        n_states += 1
+        if n_states > max_states:
+            return True  # give up: do not claim unreachability
+        env = dict(envt)
+        blk = fn.blocks[b]
+        dead = False
+        for e in blk['elems']:
+            n = fn.nodes[e]
+            k = n.get('k')
+            if k == 'decl':
+                for v in n['vars']:
+                    if v['tC'] in ('bool', 'const bool') and isinstance(v.get('init'), int):
+                        env[v['d']] = ev(v['init'], env)
+            elif k == 'assign' and n['op'] == '=':
+                l = fn.sn(n['lhs'])
+                if l is not None and is_bool_local(l):
+                    env[l['d']] = ev(n['rhs'], env)
+            elif k == 'throw' or (k == 'call' and n.get('noret')):
+                dead = True
+                break
+        if dead:
+            continue
+        if b == fn.exit:
+            return True
+        succs = blk['succs']
+        if 'cond' in blk and len(succs) == 2 and blk.get('termcls') != 'SwitchStmt':
+            v = ev(blk['cond'], env)
+            idxs = [0] if v is True else [1] if v is False else [0, 1]
+        else:
+            idxs = range(len(succs))
+        for i in idxs:
+            s2 = succs[i]
+            if s2 is None:
+                continue
+            st = (s2, tuple(sorted((d, val) for d, val in env.items() if val is not None)))
+            if st not in seen:
+                seen.add(st)
+                dq.append(st)
+    return False
